@@ -58,7 +58,17 @@ func cmdC17X(args []string) {
 	calls, extreme := 0, 0
 	for ci, s := range sems {
 		cfg := s.spell(rng)
-		m, err := cors.NewMiddleware(*cfg)
+		var m *cors.Middleware
+		var err error
+		func() {
+			defer func() {
+				if p := recover(); p != nil {
+					t.emit(map[string]any{"ev": "Panic", "what": fmt.Sprint(p), "where": "NewMiddleware", "config": fmt.Sprintf("%.300q", fmt.Sprintf("%+v", *cfg))})
+					err = fmt.Errorf("panic")
+				}
+			}()
+			m, err = cors.NewMiddleware(*cfg)
+		}()
 		if err != nil {
 			continue
 		}
@@ -254,6 +264,11 @@ func cmdC18(args []string) {
 	}
 	shapes := []string{"bytes", "elements", "empties", "lines", "emptylines", "ows", "allowed-then-junk",
 		"allowed", "allowed-sp", "allowed-tab", "allowed-both", "allowed-lines", "allowed-empties", "allowed-upper", "allowed-title", "allowed-pairs", "allowed-deep"}
+	// elements of EVERY length 1..40 (work that depends on an element's exact length - a canonical header name has 13, 14, ...
+	// bytes), lower-case, not canonical, distinct
+	for L := 1; L <= 40; L++ {
+		shapes = append(shapes, fmt.Sprintf("elen-%02d", L))
+	}
 	measures := 0
 	for _, kc := range kinds {
 		m, err := cors.NewMiddleware(*kc.s.spell(rng))
@@ -332,6 +347,20 @@ func cmdC18(args []string) {
 								} else {
 									v = []string{strings.Join(parts, sep)}
 								}
+							} else if strings.HasPrefix(shape, "elen-") {
+								if n > 1000 || n == 1 || kc.many != nil {
+									continue // two rungs (10, 100, 1000 elements) are enough per length
+								}
+								L := int(shape[5]-'0')*10 + int(shape[6]-'0')
+								parts := make([]string, n)
+								for q := range parts {
+									b := []byte(strings.Repeat("x", L))
+									for d, x := L-1, q; d >= 0 && d >= L-4; d, x = d-1, x/26 {
+										b[d] = 'a' + byte(x%26)
+									}
+									parts[q] = string(b)
+								}
+								v = []string{strings.Join(parts, ",")}
 							} else if shape == "allowed-then-junk" {
 								v = []string{"x-a,x-b," + strings.Repeat("x-c,", n)}
 							} else {
